@@ -37,8 +37,8 @@ ID = "C17"
 LEVEL = "exploration"
 RULE = ("cases = operation histories on two link controllers: (a) all sequences of up to 3 (thorough: 4) symbols over "
         "a 19-symbol alphabet of bind/listen/close/resolve/connect/sendto/close-again/resolve-batch/SNL-batch "
-        "operations on 6 socket slots, in the quick tier also all 4-symbol sequences that end in one of the three "
-        "new symbols, (b) random "
+        "operations on 6 socket slots, in the quick tier also all 4-symbol sequences that end in close-again, "
+        "(b) random "
         "histories of ~60-110 operations drawn from 7 profiles (mixed, names life cycle, named-address exhaustion, "
         "dynamic exhaustion, well-known names + raw access points, datagrams, several connections per listener) with "
         "arguments biased by the model state (occupied / freed / tainted addresses, registered / closed names, closed "
@@ -449,7 +449,8 @@ class Hist(object):
         for i in range(times):
             if ms.kind == AM.DLC:
                 # a closed data link connection has nothing to disconnect; the helper thread only guards the harness
-                done, out, cap, hung = self.blocking(s.close, sent=lambda cap: True, answered=lambda cap: False)
+                # (no request goes out, so there is no "hung" verdict: wait for the helper within the wall guard)
+                done, out, cap, hung = self.blocking(s.close, sent=lambda cap: False, answered=lambda cap: False)
                 if not done:
                     if not tainted:
                         self.R.inconc("close() of an already closed data link connection socket did not return")
@@ -649,7 +650,7 @@ class Hist(object):
         import nfc.llcp.pdu as P
         end = self.end[sid]
         pe = other(end)
-        m, peer = self.m[end], self.m[pe]
+        peer = self.m[pe]
         s = self.socks[sid]
         used = set(getattr(self.llc[end].sap[1], "sent", None) or ())    # adapter: ids the local resolver knows
         tids, t = [], (self.next_id * 37) % 256
@@ -1617,7 +1618,7 @@ ALPHABET = [
     ("resolve", SVC), ("resolve", "urn:nfc:sn:snep"), ("connect", SVC), ("connect", "urn:nfc:sn:snep"), ("sendto", 32),
     ("again",), ("mresolve",), ("snl",),
 ]
-NEW_SYMBOLS = (16, 17, 18)
+TAIL_SYMBOLS = (16,)     # `again` needs three symbols of preparation (bind, close, bind once more) to meet a reused address
 
 
 def expand_short(word):
@@ -1677,7 +1678,7 @@ def expand_short(word):
 
 
 def short_words(maxlen, tail_len=0):
-    """all words up to maxlen, then (tail_len > maxlen) the words of length tail_len that end in a new symbol"""
+    """all words up to maxlen, then (tail_len > maxlen) the words of length tail_len that end in `again`"""
     n = len(ALPHABET)
     for length in range(1, maxlen + 1):
         for i in range(n ** length):
@@ -1687,7 +1688,7 @@ def short_words(maxlen, tail_len=0):
                 x //= n
             yield w
     if tail_len > maxlen:
-        for last in NEW_SYMBOLS:
+        for last in TAIL_SYMBOLS:
             for i in range(n ** (tail_len - 1)):
                 w, x = [], i
                 for _ in range(tail_len - 1):
@@ -1703,7 +1704,7 @@ def plan(tier, seed):
     n = 16
     if tier == "quick":
         return [{"hist": 125, "ops": 60, "short_len": 3, "short_tail": 4, "timeout": 600} for _ in range(n)]
-    return [{"hist": 3750, "ops": 60, "short_len": 4, "short_tail": 0, "timeout": 3000} for _ in range(n)]
+    return [{"hist": 3000, "ops": 60, "short_len": 4, "short_tail": 0, "timeout": 3000} for _ in range(n)]
 
 
 SHRINK_RUNS = 120
